@@ -21,7 +21,7 @@ THOROUGH_SHARDS = 16
 # unchanged tree): semaphore_timedwait_trap(mach_port_name_t wait_name, unsigned int sec, clock_res_t nsec)
 NARROW_PARAMETERS = {('MSC_semaphore_timedwait_trap', 1): 32}
 WORD_BOUNDARIES = (0, 1, 0x7f, 0x80, 0xff, 0x7fff, 0x8000, 0xffff, (1 << 31) - 1, 1 << 31, (1 << 31) + 0x1234, (1 << 32) - 1,
-                   1 << 32, (1 << 32) + 0x1234, (1 << 63) - 1, 1 << 63, (1 << 64) - 1)
+                   1 << 32, (1 << 32) + 0x1234, (1 << 63) - 1, 1 << 63, (1 << 64) - 1) + domain.SENTINEL_WORDS
 MARK = [b'/PMa/x', b'/PMb/y', b'/PMc/z', b'/PMd/w', b'/PMe/v', b'/PMf/u', b'/PMg/t']
 
 
@@ -262,8 +262,7 @@ def run(ctx):
     for i, name in enumerate(names):
         if ctx.mine(i):
             check_decoder(res, ctx, rng, name)
-    stream.run_stream(res, 'c09', STREAM_CASES, rng, 'call renderings')
-    stream.run_files(res, 'c09', STREAM_CASES, rng, 'call renderings')
+    stream.run_all(res, 'c09', STREAM_CASES, rng, 'call renderings', ctx)
     if ctx.shard == 0:
         s, _ = sentinel_start(core.Ctx('C09', ctx.tier, ctx.seed).rng, 'BSC_pread')
         res.sample({'decoder': 'BSC_pread', 'start_words': [hex(w) for w in s],
